@@ -142,6 +142,7 @@ class VM:
         self.universe = []        # byte strings in existence (for the freshness of ideal-function outputs)
         self.run_bytes = []       # (run id, offset term, byte term): bytes read from inside opaque runs
         self.ideal_log = []       # (function name, output bytes) of every new ideal-function call, in order
+        self.run_fill = {}        # run id -> repeating content declared by the harness (None: opaque)
         self.notes = []
 
     def explore(self, entry, max_paths=10 ** 9, on_path=None, deadline=None):
@@ -460,6 +461,8 @@ class VM:
         self.fresh += 1
         rid = f'{name}!{self.fresh}'
         self.inputs.append(('run', name, (rid, ln.e, fill)))
+        if isinstance(fill, (bytes, bytearray)):
+            self.run_fill[rid] = bytes(fill)
         if lo == hi and lo is not None:
             return SBytes([Run(rid, 0, lo)]) if lo else b''
         return SBytes([Run(rid, 0, ln.e)])
